@@ -56,8 +56,14 @@ func relayout(r *rand.Rand, src string) (string, []string) {
 		if i+1 < len(toks) && !isSpace(toks[i+1]) && (punct(t) || punct(toks[i+1])) && !strings.HasPrefix(t, "//") {
 			next := toks[i+1]
 			// never split a two-character operator the tokenizer here did not see, never glue '-' to a digit
-			if !(strings.ContainsAny(t, "=!<>&|+-*/%:") && strings.ContainsAny(next[:1], "=&|+-")) && r.Intn(3) == 0 {
-				b.WriteString([]string{" ", "\t", "/**/", " /* x */"}[r.Intn(4)])
+			// ... nor create or destroy a comment opener: nothing between "/" or "*" and a following "/" or "*", no comment glued to a "/"
+			slashy := (strings.HasSuffix(t, "/") || strings.HasSuffix(t, "*")) && (strings.HasPrefix(next, "/") || strings.HasPrefix(next, "*"))
+			if !(strings.ContainsAny(t, "=!<>&|+-*/%:") && strings.ContainsAny(next[:1], "=&|+-")) && !slashy && r.Intn(3) == 0 {
+				choices := []string{" ", "\t", "/**/", " /* x */"}
+				if strings.HasSuffix(t, "/") {
+					choices = []string{" ", "\t", " /* x */"}
+				}
+				b.WriteString(choices[r.Intn(len(choices))])
 				ops = append(ops, "blank-around-punct")
 			}
 		}
